@@ -86,7 +86,7 @@ Definition show_dec {A} (f : A -> bytes) (r : res (A * bytes)) : bytes :=
 (* ---------- TLV descriptors (harness -> model) ---------- *)
 
 Definition d_take (k : N) (bs : bytes) : option (bytes * bytes) :=
-  if k <=? len bs then Some (firstn (N.to_nat k) bs, skipn (N.to_nat k) bs) else None.
+  split_at k bs.
 Definition d_num (k : N) (bs : bytes) : option (N * bytes) :=
   match d_take k bs with Some (h, t) => Some (unbe h, t) | None => None end.
 
@@ -132,14 +132,14 @@ with d_arr (fuel : nat) (n : N) (bs : bytes) (acc : list gval) {struct fuel} : o
   match fuel with
   | O => None
   | S f =>
-      if n =? 0 then Some (GArr (rev acc), bs)
+      if n =? 0 then Some (GArr (rev_append acc []), bs)
       else match d_gval f bs with Some (v, r) => d_arr f (n - 1) r (v :: acc) | None => None end
   end
 with d_map (fuel : nat) (n : N) (bs : bytes) (acc : list (bytes * gval)) {struct fuel} : option (gval * bytes) :=
   match fuel with
   | O => None
   | S f =>
-      if n =? 0 then Some (GMap (rev acc), bs)
+      if n =? 0 then Some (GMap (rev_append acc []), bs)
       else match d_num 4 bs with
            | Some (l, u) =>
                match d_take l u with
